@@ -3,6 +3,6 @@ CONSTANTS
   Family = "design"
   MaxN = 4
   EmptyKey = FALSE
-  DesignKeys = 3
+  DesignKeys = 2
 INVARIANT ImplMeetsDecl
 CHECK_DEADLOCK FALSE
